@@ -27,6 +27,11 @@ def gen(rng, tier, shape=None):
     if kind == "bytes":
         n = rng.randint(0, 12)
         cps = [rng.choice([39, 34, 92, 10, 13, 9, 0, 97, 255, 127, 128, 32]) for _ in range(n)]
+    elif r < 0.08:
+        # both triple-quote kinds in a multi-line string that ends in a quote character (the escaped-final-quote rule)
+        pieces = ["'''", '"""', "\n"] + [chr(rng.choice(QUOTEY)) for _ in range(rng.randint(0, 4))]
+        rng.shuffle(pieces)
+        cps = [ord(c) for c in "".join(pieces) + rng.choice(["'", '"', "'", '"', " ", "a", "\\"])]
     elif r < 0.45:
         cps = [rng.choice(ALPHA) for _ in range(rng.randint(0, 10))]
     elif r < 0.8:
